@@ -57,12 +57,21 @@ def st_raw(fam):
 def check_raw(c):
     e = D.ENTRIES[c["entry"]]
     buf = bytes.fromhex(c["buf"])
-    if c.get("patch") and e.crc is not None:
-        buf = e.crc(buf, c["cfg"])
     devs = []
-    _probe(devs, e, buf, c["cfg"], "raw", False, set())
-    _probe(devs, e, bytearray(buf), c["cfg"], "raw.bytearray", False, set())
-    return devs, 2
+    n = 0
+    bufs = [buf]
+    if e.crc is not None:
+        patched = e.crc(buf, c["cfg"])
+        if patched != buf:
+            bufs.append(patched)
+    if c.get("patch") and len(bufs) == 2:
+        bufs = bufs[1:]  # replay files of the fuzz target name the exact variant
+    seen = set()
+    for b in bufs:
+        _probe(devs, e, b, c["cfg"], "raw", False, seen)
+        _probe(devs, e, bytearray(b), c["cfg"], "raw.bytearray", False, seen)
+        n += 2
+    return devs, n
 
 
 def _nt_raw(c):
@@ -70,7 +79,7 @@ def _nt_raw(c):
 
 
 def _cls_raw(c):
-    return [c["entry"]] + (["crc patched"] if c.get("patch") else [])
+    return [c["entry"]]
 
 
 # ---- (b) every truncation point of valid packets -----------------------------------------------------------------
@@ -141,22 +150,28 @@ def check_subst(c):
     devs = []
     seen = set()
     n = 0
-    for what, buf in mutations(e, raw, c["cfg"], random.Random(c["seed"])):
-        if c["patch"] and e.crc is not None:
-            buf = e.crc(buf, c["cfg"])
-        n += 1
-        kind, r = D.outcome(e, buf, c["cfg"])
-        if kind in ("bad", "hang"):
-            key = (kind, type(r).__name__, exc_sub(r) if r is not None else "")
-            if key not in seen:
-                seen.add(key)
-                _bad(devs, e, "subst", kind, r, f"{what} buf={buf.hex()[:160]} cfg={c['cfg']}")
+    for what, buf0 in mutations(e, raw, c["cfg"], random.Random(c["seed"])):
+        # every mutation is tried as it is and - for checksummed units - with the CRC re-patched over the declared extent
+        # (a generated boolean would leave the patched half badly under-sampled: Hypothesis favours False)
+        variants = [("", buf0)]
+        if e.crc is not None:
+            patched = e.crc(buf0, c["cfg"])
+            if patched != buf0:
+                variants.append((" +crc", patched))
+        for sfx, buf in variants:
+            n += 1
+            kind, r = D.outcome(e, buf, c["cfg"])
+            if kind in ("bad", "hang"):
+                key = (kind, type(r).__name__, exc_sub(r) if r is not None else "")
+                if key not in seen:
+                    seen.add(key)
+                    _bad(devs, e, "subst", kind, r, f"{what}{sfx} buf={buf.hex()[:160]} cfg={c['cfg']}")
     return devs, max(n, 1)
 
 
 def _cls_subst(c):
     e = D.ENTRIES[c["entry"]]
-    return [c["entry"]] + (["crc patched"] if c["patch"] and e.crc is not None else [])
+    return [c["entry"]] + (["with and without re-patched crc"] if e.crc is not None else [])
 
 
 def _names(fam):
@@ -167,7 +182,7 @@ CLAUSES = []
 for _fam in D.FAMILIES:
     CLAUSES.append(Clause(
         id=f"C10.raw.{_fam}",
-        doc=f"{_fam}: arbitrary octets, valid-prefix + noise, valid unit with an overwritten window (CRC re-patched in half the cases): return or documented error, never another exception, never a hang",
+        doc=f"{_fam}: arbitrary octets, valid-prefix + noise, valid unit with an overwritten window (each also with the CRC re-patched): return or documented error, never another exception, never a hang",
         strategy=(lambda _fam=_fam: st_raw(_fam)), check=check_raw, nontrivial=_nt_raw, classify=_cls_raw, required=_names(_fam),
         rule="non-trivial = buffer of at least 4 octets (gets past the first guard of most decoders)",
         n={"quick": 120 * len(D.by_family(_fam)), "thorough": 1500 * len(D.by_family(_fam))},
@@ -181,10 +196,10 @@ for _fam in D.FAMILIES:
     ))
     CLAUSES.append(Clause(
         id=f"C10.subst.{_fam}",
-        doc=f"{_fam}: single-octet substitutions at every index of the header/length/type region and length-field rewrites of a valid unit, CRC re-patched in half the cases",
+        doc=f"{_fam}: single-octet substitutions at every index of the header/length/type region and length-field rewrites (also with the buffer cut to match) of a valid unit, each tried as is and with the CRC re-patched",
         strategy=(lambda _fam=_fam: st_subst(_fam)), check=check_subst, classify=_cls_subst, required=_names(_fam), weight_by_evals=True,
         rule="every (valid unit, substitution) pair is non-trivial",
-        n={"quick": 40 * len(D.by_family(_fam)), "thorough": 400 * len(D.by_family(_fam))},
+        n={"quick": 100 * len(D.by_family(_fam)), "thorough": 800 * len(D.by_family(_fam))},
     ))
 
 CLAUSES.append(Clause(
@@ -204,7 +219,7 @@ PROPERTY = Property(
     rule=(
         f"{len(D.ENTRIES)} public decoder entry points in 7 families; per family three generators: (a) arbitrary octets up to 64, valid-prefix+noise and overwritten windows of valid units, "
         "(b) every truncation point of generated valid units (from the reference encoders), (c) octet substitutions {00, ff, v^01, v^80, v+1, drawn} at every index of the header region and "
-        "length-field rewrites {0,1,true+-1,true+-2,max}, with the CRC re-patched over the declared extent in half the cases so checksum gates do not shield the parser; oracle: outcome is a "
+        "length-field rewrites {0,1,true+-1,true+-2,max}, each also with the CRC re-patched over the declared extent so checksum gates do not shield the parser; oracle: outcome is a "
         "return or a documented error class (ValueError family, CRC errors, version, TLV type mismatch, USLP errors), every call under a 10 s watchdog; strict prefixes of self-delimiting units must be refused"
     ),
     clauses=CLAUSES,
